@@ -453,3 +453,27 @@ theorem cyl_candidates_in_box (nr nz : ℕ) (hn : 0 < nz) (periodic : Bool) (mas
     exact hplain cs h
 
 end DV.C02
+
+/-! ### known finding D21: the 'spanning' test of the periodic cylindrical branch
+
+`slices[1].start == 0 and slices[1].stop > nz` (on the 3× padded image) is meant to detect an on-axis component that
+winds round the z axis.  It also fires for a component that does NOT wind but is longer than one period when
+unwrapped; the code then analyses the image without periodic boundary conditions.  Witness (found by the
+implementation-side predicate with `VERIF_SEED=7`, reproduced by the model): -/
+namespace DV.C02
+open DV.Cyl DV.Label DV.Merge
+
+def maskD21 : List Bool :=
+  [0,0,0,0,0,1,1, 1,0,1,1,1,1,1, 0,0,1,0,0,0,0, 1,1,1,0,0,0,1, 0,0,1,0,0,0,1].map (· == 1)
+
+/-- On the 5 × 7 image `maskD21` with periodic z: all 15 image cells form ONE component of the grid's topology (the
+Cartesian pipeline, proved correct above, finds one cluster of 15 cells), of weight 71 (volume / π dr² dz); the padded
+analysis is abandoned (`single … = none`) and the candidate handed on is an in-box piece of weight 52. -/
+theorem cyl_long_component_witness :
+    (locateMask [5, 7] [false, true] maskD21).map (fun p => p.2.1) = [15] ∧
+    (((List.range 35).filter fun c => maskD21.getD c false).map fun c => 2 * rIdx 7 c + 1).sum = 71 ∧
+    single 5 21 7 (padded 7 fun c => maskD21.getD c false) = none ∧
+    candidates 5 7 true (fun c => maskD21.getD c false) = some [(11/3, 52)] := by
+  decide +kernel
+
+end DV.C02
